@@ -148,6 +148,11 @@ class Sym:
       return ('global', e.id)
     if isinstance(e, ast.Constant):
       return ('const', e.value)
+    if isinstance(e, (ast.Compare, ast.BoolOp)) or (
+        isinstance(e, ast.UnaryOp) and isinstance(e.op, ast.Not)):
+      c = self._cond(e, env)            # a named flag: `has_key = key is not UNSPECIFIED`
+      if c is not None:
+        return ('const', c)
     if isinstance(e, ast.NamedExpr) and isinstance(e.target, ast.Name):
       v = self._val(e.value, env)
       env[e.target.id] = v            # the binding is visible after the test
